@@ -15,7 +15,7 @@ from ..vloop import VLoop
 THEOREMS = ["C20_wait_ends_cleanly", "C20_invariant_everywhere", "C20_wait_timer_ends", "C20_duplicate_match_is_noop",
             "C20_old_timeout_refuted", "C20_now_timeout_clean", "C20_no_loop_exceptions", "C20_old_repeat_refuted",
             "C20_phases_exclusive", "C20_offer_is_not_confirm", "C20_abandon_leaves_no_timer", "C20_abandon_ends_binding",
-            "C20_retry_is_fresh", "C20_wrong_abandon_order_refuted", "C20_right_abandon_order_witness"]
+            "C20_retry_is_fresh", "C20_wrong_abandon_order_refuted", "C20_right_abandon_order_witness", "C20_early_match_not_lost"]
 
 PRELUDE = ("From Coq Require Import List Bool Arith.\nFrom RV Require Import M_Bind.\nImport ListNotations.\n"
            "Set Printing Width 1000000.\nSet Printing Depth 1000000.\n"
@@ -505,7 +505,10 @@ def handshakes(ctx: Ctx, n: int) -> None:
                 "resp_late": rng.choice([0.0, 0.0, 1.0, 4.9]),
                 # the caller of one end gives up (cancels its attempt) at this time; the retry follows after this gap
                 "give_up": rng.choice([None, None, None, ("resp", 0.1), ("resp", 1.0), ("supp", 0.2 + G), ("supp", 1.0), ("resp", 4.0)]),
-                "retry_gap": rng.choice([6.0, 6.0, 0.0, 0.5, 2.0, 4.0])}
+                "retry_gap": rng.choice([6.0, 6.0, 0.0, 0.5, 2.0, 4.0]),
+                # the send of this frame RETURNS late (its echo was lost and the frame retransmitted, or the send was stalled behind other work): the peer,
+                # which heard the first copy, has answered before the sender's own send call is over
+                "late_return": rng.choice([None, None, "offer", "accept", "offer+accept"]), "late_by": rng.choice([2 * G, 0.3, 0.6])}
         if plan["third_party"]:
             plan["retry_gap"] = 6.0    # the neighbours' pairing must be over before the retry: "a new, undisturbed attempt"
         if trial < 6:   # first: an end that gives up early and retries at once, the peer's offer arriving late in the new wait
@@ -517,6 +520,10 @@ def handshakes(ctx: Ctx, n: int) -> None:
                 plan["late_2nd"] = ("supp", 3.9)
             else:     # the respondent listens from the start of the retry; every frame of the retry takes 2.4 s to get through
                 plan["delay_2nd"] = 2.4
+        elif trial < 12:   # then: an otherwise undisturbed handshake in which the peer's reply overtakes the end of the sender's own send
+            plan.update({"lose": None, "fail_send": None, "third_party": None, "resp_late": 0.0, "give_up": None, "retry_gap": 6.0, "delay": G,
+                         "repeat": [1, 1, 2, 1, 3, 1][trial - 6], "late_return": ["offer", "accept", "offer+accept", "offer+accept", "accept", "offer"][trial - 6],
+                         "late_by": [0.3, 0.3, 0.6, 4 * G, 0.6, 2.0][trial - 6]})
         loop = VLoop(lifo=plan["lifo"])
         asyncio.set_event_loop(loop)
         errs = []
@@ -549,6 +556,8 @@ def handshakes(ctx: Ctx, n: int) -> None:
                         elif plan["lose"] != phase and route[(phase, "me" if phase == "offer" or cmd.dst.id == did else "other")]:
                             for _ in range(plan["repeat"]):
                                 loop.call_soon(deliver, c, msg)
+                    if plan.get("late_return") and phase in plan["late_return"]:
+                        await asyncio.sleep(plan["late_by"])
                     return pkt
 
             r_dev, s_dev = D("01:111111"), D("07:222222")
@@ -601,7 +610,7 @@ def handshakes(ctx: Ctx, n: int) -> None:
             await asyncio.sleep(plan["retry_gap"])   # 6 s: any state timer has expired by now; shorter: a retry at once
             out["binding_after"] = {k: c.is_binding for k, c in ctxs.items()}
             saved = dict(plan)
-            plan.update({"lose": None, "fail_send": None, "repeat": 1, "resp_late": 0.0, "delay": plan.get("delay_2nd", plan["delay"])})
+            plan.update({"lose": None, "fail_send": None, "repeat": 1, "resp_late": 0.0, "delay": plan.get("delay_2nd", plan["delay"]), "late_return": None})
             out["second"] = await attempt(2)
             plan.update(saved)
             await asyncio.sleep(6)
